@@ -677,6 +677,29 @@ class C09(ServerProp):
             h.finish(clients=[w])
             h.witness = w
             out.append(self.mk(h, 0, {'kind': 'greedy-never-reads-then-flush', 'witness': w, 'oracle_only': True}))
+        # a client that can no longer be written to (it shut down its read side; the kernel reports no hang-up for that)
+        # with pipelined requests answered one by one while nothing else happens: it must be released by the poll that
+        # follows the last answer, without waiting for an unrelated event
+        for _ in range(30 if tier == 'quick' else 1000):
+            h = Hist(rng)
+            w = h.connect()
+            z = h.connect()
+            h.ops.append([11, 4])
+            if rng.random() < 0.5:
+                h.request(w, poll_between=False)
+                h.ops.append([11, 6])
+                h.ops.append([12, 0])
+                h.ops.append([11, 6])
+                h.drain(w)
+            h.request(z, pipelined=rng.choice([2, 3]), poll_between=False)
+            h.ops.append([11, 6])
+            h.ops.append([4, z])
+            for _ in range(4):
+                h.ops.append([12, 0])
+                h.ops.append([11, 4])
+            h.ops.append([6])
+            h.witness = w
+            out.append(self.mk(h, 0, {'kind': 'unwritable-client-answered-quietly', 'witness': w}))
         return out
 
     def oracle(self, cases, impl):
